@@ -129,6 +129,13 @@ CHECKS = {
             'a derivation is checked, which is the monotonicity clause.',
             'Identifiers occurring in plain-string AST fields are not renamed; wildcards are not placed inside f-strings, '
             'match patterns, type aliases, starred/unpacking arguments, slices.', '3/C11'),
+    'C14': ('Enumerated product of non-terminating program kinds x entry points x thread schedules forced through the '
+            'guarded sync points x follow-up operations x limits, each case in a forked child with a watchdog; differential of '
+            'the follow-ups against a sandbox that never timed out plus invariants on exception, feedback count and stacks',
+            '84 forced-schedule cases per quick run, the complete 1008-case product in thorough; the race between grader and '
+            'interrupted student thread is made deterministic at three points instead of being left to timing.',
+            'Only the three sync points are controlled; the wall-clock bound (limit + 30 s) only detects hangs; a zombie '
+            'thread that swallows BaseException and prints is an open known finding.', '3/C14'),
 }
 
 NOT_YET = {}
